@@ -31,7 +31,7 @@ fn spec(tier: Tier) -> CheckSpec {
 		property: "C02",
 		level: "exploration",
 		rule: "exhaustive: (chain3) every chain of 3 layers over names {a,b} x member kinds (quick: 7 kinds = absent, `:`, `::`, `:::`, `+:`, self-reference, super-reference; thorough: all 12 kinds) x both composition syntaxes; \
-			(chain2) every chain of 2 layers over all 12 member kinds x layer extras (object local, assert true / assert on self / assert false) x std.objectRemoveKey masks (before layer 2, after layer 2, both) x both syntaxes; thorough adds 3 names for 2 layers and extras+masks for 3 layers (7 kinds); \
+			(chain2) every chain of 2 layers over all 12 member kinds x layer extras (object local, assert true / assert on self / assert false) x std.objectRemoveKey masks (before layer 2, after layer 2, both) x both syntaxes; thorough adds 3 names for 2 layers (7 kinds) and asserts+masks for 3 layers (5 plain kinds); \
 			(deep) chains of 4 and 5 layers with at most 4 non-absent members; (shared) every chain in which one layer *value* (all 12 kinds x object local x assert kinds) occurs at two positions (`m + m`, `L + m + m`, `m + L + m`, L over 7 kinds). Every composed object is probed with 23 probes (field read, objectHas, objectHasAll, in, std.get for present/absent names; objectFields, objectFieldsAll, length, objectValues, manifestation, equality with a re-layered copy, super read and `in super` from one more layer on top) and every probe result is compared with the reference object model R2. \
 			non-trivial = distinct chain text; failing chains are shrunk (members removed) and the minimal chain keys the class"
 			.into(),
@@ -482,7 +482,7 @@ fn part_chain2(shard: &Shard, journal: &Journal, rep: &mut Report) {
 		plans.push((2, KINDS_QUICK3.to_vec(), assert_quick.clone(), mask(2, true)));
 	} else {
 		plans.push((2, KINDS_ALL.to_vec(), assert_all.clone(), mask(2, false)));
-		plans.push((3, KINDS_ALL.to_vec(), vec![(0, 0), (0, 3), (3, 0)], mask(3, true)));
+		plans.push((3, KINDS_QUICK3.to_vec(), vec![(0, 0), (0, 3), (3, 0)], mask(3, true)));
 	}
 	for (nn, kinds, asserts, masks) in plans {
 		let mut prober = Prober::new(nn);
@@ -510,9 +510,9 @@ fn part_chain2(shard: &Shard, journal: &Journal, rep: &mut Report) {
 		});
 		idx += total;
 	}
-	// thorough: 3 layers (7 kinds) with masks and asserts
+	// thorough: 3 layers (5 plain kinds) with masks and asserts
 	if !quick {
-		let kinds = &KINDS_QUICK3;
+		let kinds: &[u8] = &[0, 1, 2, 3, 4];
 		let k = kinds.len();
 		let mut prober = Prober::new(2);
 		let dims = [k, k, k, k, k, k, 2, 2, 3, 3, 3, 2, 2, 2];
